@@ -101,6 +101,11 @@ fn positions() -> &'static Vec<Pos> {
             Pos { name: "key-label-pair", build: |n, m| { Item::Map(vec![(Item::Int(1), Item::Int(1)), (n, Item::Null), (m, Item::Null)]) }, recode: recode!(CoseKey), accepts: |i| m_key(i).is_ok(), unsigned: false, uninterpreted: false },
             Pos { name: "claim-key-pair", build: |n, m| { Item::Map(vec![(n, Item::Int(0)), (m, Item::Int(0))]) }, recode: recode!(ClaimsSet), accepts: |i| m_claims(i).is_ok(), unsigned: false, uninterpreted: false },
             Pos { name: "key-ops-pair", build: |n, m| { Item::Map(vec![(Item::Int(1), Item::Int(1)), (Item::Int(4), Item::Array(vec![n, m]))]) }, recode: recode!(CoseKey), accepts: |i| m_key(i).is_ok(), unsigned: false, uninterpreted: false },
+            // the same integer twice as labels of one map: out of range it is an out-of-range error (whatever else is wrong with the map), in range a duplicate
+            Pos { name: "header-label-twice", build: |n, _m| { Item::Map(vec![(n.clone(), Item::Null), (n, Item::Null)]) }, recode: recode!(Header), accepts: |i| m_header(i, &mut MCtx::default()).is_ok(), unsigned: false, uninterpreted: false },
+            Pos { name: "key-label-twice", build: |n, _m| { Item::Map(vec![(Item::Int(1), Item::Int(1)), (n.clone(), Item::Null), (n, Item::Null)]) }, recode: recode!(CoseKey), accepts: |i| m_key(i).is_ok(), unsigned: false, uninterpreted: false },
+            Pos { name: "claim-key-twice", build: |n, _m| { Item::Map(vec![(n.clone(), Item::Int(0)), (n, Item::Int(0))]) }, recode: recode!(ClaimsSet), accepts: |i| m_claims(i).is_ok(), unsigned: false, uninterpreted: false },
+            Pos { name: "countersig-label-twice", build: |n, _m| map1(Item::Int(7), Item::Array(vec![Item::Bytes(vec![]), Item::Map(vec![(n.clone(), Item::Null), (n, Item::Null)]), Item::Bytes(vec![1])])), recode: recode!(Header), accepts: |i| m_header(i, &mut MCtx::default()).is_ok(), unsigned: false, uninterpreted: false },
             Pos { name: "header-extra-value", build: |n, _m| map1(Item::Int(100), n), recode: recode!(Header), accepts: |_| true, unsigned: false, uninterpreted: true },
             Pos { name: "key-extra-value", build: |n, _m| Item::Map(vec![(Item::Int(1), Item::Int(1)), (Item::Int(-1), n)]), recode: recode!(CoseKey), accepts: |_| true, unsigned: false, uninterpreted: true },
             Pos { name: "claim-extra-value", build: |n, _m| map1(Item::Int(8), Item::Array(vec![n])), recode: recode!(ClaimsSet), accepts: |_| true, unsigned: false, uninterpreted: true },
@@ -159,10 +164,23 @@ fn build_bytes(p: &Pos, n: i128, w: u8) -> Option<(Vec<u8>, Item)> {
     let ph = encode(&Item::Int(PLACEHOLDER));
     let m = neighbour(&Item::Int(n));
     let carrier = encode(&(p.build)(Item::Int(PLACEHOLDER), m.clone()));
-    let at = carrier.windows(ph.len()).position(|w| w == &ph[..])?;
-    let mut bytes = carrier[..at].to_vec();
-    bytes.extend_from_slice(&enc_n);
-    bytes.extend_from_slice(&carrier[at + ph.len()..]);
+    // every occurrence (the "-twice" positions hold the integer in two places)
+    let mut bytes = vec![];
+    let mut i = 0;
+    let mut found = false;
+    while i < carrier.len() {
+        if carrier[i..].starts_with(&ph) {
+            bytes.extend_from_slice(&enc_n);
+            i += ph.len();
+            found = true;
+        } else {
+            bytes.push(carrier[i]);
+            i += 1;
+        }
+    }
+    if !found {
+        return None;
+    }
     Some((bytes, (p.build)(Item::Int(n), m)))
 }
 
@@ -313,7 +331,7 @@ pub fn property() -> Property {
     Property {
         id: "C15",
         title: "Integers are decoded exactly or rejected as out of range, never wrapped",
-        rule: "integer n x interpreting position (37 positions (incl. positions inside counter-signature arrays, nested recipients, key sets, and pairs of adjacent integers in one map): labels, alg, kty, content type, crit / key_ops entries, claim keys, nonces, timestamps, key data length, registry labels, and uninterpreted extra values) \
+        rule: "integer n x interpreting position (41 positions (incl. the same integer twice as labels of one map, positions inside counter-signature arrays, nested recipients, key sets, and pairs of adjacent integers in one map): labels, alg, kty, content type, crit / key_ops entries, claim keys, nonces, timestamps, key data length, registry labels, and uninterpreted extra values) \
                x head width (every legal width and the bignum form); exhaustive over the boundary lattice (c-3..c+3 around 0, 23/24, 2^8, 2^16, 2^31, 2^32, 2^63, 2^64 of both signs), random elsewhere in [-2^64, 2^64-1]; \
                non-trivial = |n| >= 2^31 or n on the lattice; distinct by (position, n, width)",
         assumptions: &["oracle: out-of-range => the out-of-range error; in range => accepted iff the reference model accepts, and the re-encoding read by the strict reader holds exactly n"],
